@@ -95,3 +95,81 @@ Lemma ke_invariant_under_shift m p G V S :
   sv_dot ROps (sa_shiftVelocityBy ROps V S) (si_mul ROps (si_shift ROps (m,p,G) S) (sa_shiftVelocityBy ROps V S))
   = sv_dot ROps V (si_mul ROps (m,p,G) V).
 Proof. d3 p; dsym G; dsv V; d3 S. unf. ring. Qed.
+
+(** ** B. re-expression.  Rotation_::reexpressSymMat33 is a 57-flop formula that is R S R^T only for a proper
+    rotation: it takes one diagonal entry from the trace (needs R^T R = I) and the cross terms from
+    (R v)x = R [v]x R^T (needs det R = +1). *)
+Definition rotation (M:Mat33 R) : Prop := orthogonal M /\ m33_det ROps M = 1.
+Lemma rot_cofactor a b c d e f g h i : rotation ((a,b,c),(d,e,f),(g,h,i)) ->
+  (g = b*f - c*e /\ h = c*d - a*f /\ i = a*e - b*d) /\
+  (a = e*i - f*h /\ b = f*g - d*i /\ c = d*h - e*g) /\
+  (d = h*c - i*b /\ e = i*a - g*c /\ f = g*b - h*a).
+Proof. intros [H D]. orth_hyps H. revert D; unf; intros D. repeat split; nsatz_or_fail. Qed.
+Lemma reexpress_is_congruence R S : rotation R ->
+  sym_to_m33 (reexpressSymMat33 ROps R S) = sym_congr ROps R S.
+Proof. intros H. dm33 R; dsym S. generalize (rot_cofactor _ _ _ _ _ _ _ _ _ H).
+  intros [[C1 [C2 C3]] [[C4 [C5 C6]] [C7 [C8 C9]]]]. destruct H as [H _]. orth_hyps H. unf.
+  teq. all: nsatz_or_fail. Qed.
+
+(** generic 3x3 facts *)
+Definition tr33 (M:Mat33 R) : R := m33_e M 0 0 + m33_e M 1 1 + m33_e M 2 2.
+Definition inv2_33 (M:Mat33 R) : R :=
+  m33_e M 0 0 * m33_e M 1 1 - m33_e M 0 1 * m33_e M 1 0 + (m33_e M 0 0 * m33_e M 2 2 - m33_e M 0 2 * m33_e M 2 0)
+  + (m33_e M 1 1 * m33_e M 2 2 - m33_e M 1 2 * m33_e M 2 1).
+Lemma m33_mul_assoc (A B C : Mat33 R) : m33_mul ROps (m33_mul ROps A B) C = m33_mul ROps A (m33_mul ROps B C).
+Proof. dm33 A; dm33 B; dm33 C. vunf. teq; ring. Qed.
+Lemma m33_mul_I_r (A : Mat33 R) : m33_mul ROps A I33 = A.
+Proof. dm33 A. cbv [I33]; vunf. teq; ring. Qed.
+Lemma m33_mul_I_l (A : Mat33 R) : m33_mul ROps I33 A = A.
+Proof. dm33 A. cbv [I33]; vunf. teq; ring. Qed.
+Lemma m33_det_mul (A B : Mat33 R) : m33_det ROps (m33_mul ROps A B) = m33_det ROps A * m33_det ROps B.
+Proof. dm33 A; dm33 B. vunf. ring. Qed.
+Lemma m33_det_T (A : Mat33 R) : m33_det ROps (m33_T A) = m33_det ROps A.
+Proof. dm33 A. vunf. ring. Qed.
+Lemma tr33_comm (A B : Mat33 R) : tr33 (m33_mul ROps A B) = tr33 (m33_mul ROps B A).
+Proof. dm33 A; dm33 B. cbv [tr33]; vunf. ring. Qed.
+Lemma inv2_via_trace A : 2 * inv2_33 A = tr33 A * tr33 A - tr33 (m33_mul ROps A A).
+Proof. dm33 A. cbv [tr33 inv2_33]; vunf. ring. Qed.
+Lemma m33_T_T (A : Mat33 R) : m33_T (m33_T A) = A.
+Proof. dm33 A. reflexivity. Qed.
+Lemma rotation_T M : rotation M -> rotation (m33_T M).
+Proof. intros [[H1 H2] D]. split; [split|]. - rewrite m33_T_T; exact H2. - rewrite m33_T_T; exact H1.
+  - rewrite m33_det_T; exact D. Qed.
+Lemma sym_invariants_of_m33 (S : SymMat33 R) : sym_trace ROps S = tr33 (sym_to_m33 S) /\ sym_inv2 ROps S = inv2_33 (sym_to_m33 S).
+Proof. dsym S. cbv [tr33 inv2_33]; unf. split; ring. Qed.
+(** invariants of a congruence by an orthogonal matrix *)
+Lemma congr_invariants M A : orthogonal M ->
+  let B := m33_mul ROps (m33_mul ROps M A) (m33_T M) in
+  tr33 B = tr33 A /\ inv2_33 B = inv2_33 A /\ m33_det ROps B = m33_det ROps A * (m33_det ROps M * m33_det ROps M).
+Proof. intros [H1 H2] B.
+  assert (T1 : tr33 B = tr33 A).
+  { unfold B. rewrite tr33_comm, <- m33_mul_assoc, H2, m33_mul_I_l. reflexivity. }
+  assert (BB : m33_mul ROps B B = m33_mul ROps (m33_mul ROps M (m33_mul ROps A A)) (m33_T M)).
+  { unfold B. rewrite !m33_mul_assoc. rewrite <- (m33_mul_assoc (m33_T M) M). rewrite H2, m33_mul_I_l. reflexivity. }
+  assert (T2 : tr33 (m33_mul ROps B B) = tr33 (m33_mul ROps A A)).
+  { rewrite BB. rewrite tr33_comm, <- m33_mul_assoc, H2, m33_mul_I_l. reflexivity. }
+  split; [exact T1|split].
+  - generalize (inv2_via_trace B) (inv2_via_trace A). rewrite T1, T2. lra.
+  - unfold B. rewrite !m33_det_mul, m33_det_T. ring. Qed.
+
+(** re-expression preserves trace, second invariant and determinant, i.e. the characteristic polynomial,
+    i.e. the principal moments *)
+Lemma reexpressSymMat33_preserves_charpoly R S : rotation R ->
+  sym_trace ROps (reexpressSymMat33 ROps R S) = sym_trace ROps S /\
+  sym_inv2 ROps (reexpressSymMat33 ROps R S) = sym_inv2 ROps S /\
+  sym_det ROps (reexpressSymMat33 ROps R S) = sym_det ROps S.
+Proof. intros H. generalize (reexpress_is_congruence R S H); intros E.
+  destruct (sym_invariants_of_m33 (reexpressSymMat33 ROps R S)) as [A1 A2].
+  destruct (sym_invariants_of_m33 S) as [B1 B2]. destruct H as [O D].
+  destruct (congr_invariants R (sym_to_m33 S) O) as [C1 [C2 C3]].
+  unfold sym_det. rewrite A1, A2, B1, B2, E. unfold sym_congr. rewrite C1, C2, C3, D. repeat split; ring. Qed.
+Lemma reexpress_preserves_trace_and_charpoly I R_FB : rotation R_FB ->
+  sym_trace ROps (in_reexpress ROps I R_FB) = sym_trace ROps I /\
+  sym_inv2 ROps (in_reexpress ROps I R_FB) = sym_inv2 ROps I /\
+  sym_det ROps (in_reexpress ROps I R_FB) = sym_det ROps I.
+Proof. intros H. apply reexpressSymMat33_preserves_charpoly, rotation_T, H. Qed.
+(** Inertia_::reexpress(R_FB) is R_FB^T I R_FB *)
+Lemma in_reexpress_is_congruence I R_FB : rotation R_FB ->
+  sym_to_m33 (in_reexpress ROps I R_FB) = m33_mul ROps (m33_mul ROps (m33_T R_FB) (sym_to_m33 I)) R_FB.
+Proof. intros H. unfold in_reexpress. rewrite (reexpress_is_congruence _ _ (rotation_T _ H)).
+  unfold sym_congr. rewrite m33_T_T. reflexivity. Qed.
